@@ -248,3 +248,43 @@ func QnStatementTrue(p, q *big.Int, inQn [4]bool, a1 int, a2 *big.Int, b1 int, b
 	}
 	panic("c16ref: a1, b1 must be 0 or 1")
 }
+
+// Vec is an element of a prime-order group written over a basis (G, P, X) of
+// elements with unknown, independent discrete logarithms: v[0]*G + v[1]*P + v[2]*X.
+type Vec [3]*big.Int
+
+// V builds a Vec from small integers.
+func V(a, b, c int64) Vec { return Vec{big.NewInt(a), big.NewInt(b), big.NewInt(c)} }
+
+// Scale returns k*v mod n.
+func (v Vec) Scale(k, n *big.Int) Vec {
+	var o Vec
+	for i := range v {
+		o[i] = new(big.Int).Mul(v[i], k)
+		o[i].Mod(o[i], n)
+	}
+	return o
+}
+
+// Equal compares two vectors mod n.
+func (v Vec) Equal(w Vec, n *big.Int) bool {
+	for i := range v {
+		if new(big.Int).Mod(new(big.Int).Sub(v[i], w[i]), n).Sign() != 0 {
+			return false
+		}
+	}
+	return true
+}
+
+// BatchTrueForK decides the batched statement "kA = k*A and kB_j = k*B_j for all j"
+// for the GIVEN scalar k (the prover's key; A = G, kA = k*G are fixed by the caller,
+// so k is the only candidate witness when A != identity). For B_j = identity this
+// demands kB_j = identity.
+func BatchTrueForK(n, k *big.Int, b, kb []Vec) bool {
+	for j := range b {
+		if !b[j].Scale(k, n).Equal(kb[j], n) {
+			return false
+		}
+	}
+	return true
+}
